@@ -346,12 +346,14 @@ oscore_generate_nonce(cose_encrypt0_t *ptr,
                       uint8_t size) {
   memset(buffer, 0, size);
   buffer[0] = (uint8_t)(ptr->key_id.length);
-  memcpy(&(buffer[((size - 5) - ptr->key_id.length)]),
-         ptr->key_id.s,
-         ptr->key_id.length);
-  memcpy(&(buffer[size - ptr->partial_iv.length]),
-         ptr->partial_iv.s,
-         ptr->partial_iv.length);
+  if (ptr->key_id.length)
+    memcpy(&(buffer[((size - 5) - ptr->key_id.length)]),
+           ptr->key_id.s,
+           ptr->key_id.length);
+  if (ptr->partial_iv.length)
+    memcpy(&(buffer[size - ptr->partial_iv.length]),
+           ptr->partial_iv.s,
+           ptr->partial_iv.length);
   for (int i = 0; i < size; i++) {
     buffer[i] = buffer[i] ^ (uint8_t)ctx->common_iv->s[i];
   }
